@@ -11,7 +11,7 @@ def fmulFloat (f unit k : Nat) : Nat :=
   let scale : Float := (List.range k).foldl (fun s _ => s * 10.0) 1.0
   (Float.ofNat f * (Float.ofNat unit / scale)).toUInt64.toNat
 
-def stdUnits : List (Bytes × Nat) := Gen.unitMap.filter fun p => p.1 != [100]
+def stdUnits : List (Bytes × Nat) := stdUnitsOf Gen.unitMap
 
 def showParse (r : Except DurErr Int) : String :=
   match r with
@@ -34,6 +34,10 @@ def step (toks : List String) : String :=
   | ["std", s] => match ofHex s with
     | some s => showParse (parseDuration stdUnits fmulFloat s)
     | none => "bad-op"
+  | ["fm", f, unit, k] =>
+    match f.toNat?, unit.toNat?, k.toNat? with
+    | some f, some unit, some k => toString (fmulExact f unit k) ++ " " ++ toString (fmulFloat f unit k)
+    | _, _, _ => "bad-op"
   | _ => "bad-op"
 
 end Logg.Drive.C20
